@@ -17,6 +17,7 @@ from harness import frameops as fo
 from harness.core import attempt, cq_bool, cq_list
 from nested_pandas import NestedFrame
 from nested_pandas.series.packer import pack_seq
+from nested_pandas.utils import count_nested
 
 RULE = ("one case = one prefix of 0-3 failing / read-only operations (all sequences over 16 operations up to the tier's length; beyond "
         "that, random) applied to one frame, followed by a battery of 12 probes (back-ticked and plain item access, reduce, query, eval, "
@@ -55,6 +56,10 @@ OPS = {
     "sort_unknown_inplace": lambda nf: nf.sort_values("n.zz", inplace=True),
     "dropna_unknown_layer_inplace": lambda nf: nf.dropna(subset=["zz.a"], inplace=True),
     "reduce_fails": lambda nf: nf.reduce(boom, "n.`my f`"),
+    "repr_frame": lambda nf: repr(nf),
+    "str_series": lambda nf: str(nf["n"]),
+    "html_frame": lambda nf: nf._repr_html_(),
+    "to_numpy_rows": lambda nf: nf["n"].to_numpy(),
     "ok_query": lambda nf: nf.query("n.`my f` > 1"),
     "ok_eval": lambda nf: nf.eval("n.`my f` * 2"),
 }
@@ -93,6 +98,9 @@ def probes(nf):
     p("setitem_bt_on_copy", assign)
     p("listing", lambda: (list(nf.nested_columns), {k: list(v) for k, v in nf.all_columns.items()}))
     p("query_base", lambda: nf.query("x > 0"))
+    p("count_by", lambda: count_nested(nf, "n", by="my f", join=False))
+    p("apply_rows", lambda: nf["n"].apply(lambda d: None if d is None or d is pd.NA else float(d["a"].sum())))
+    p("boxed_types", lambda: [type(x).__name__ for x in nf["n"].to_numpy()])
     p("aliases", lambda: getattr(nf, "_aliases", None))
     return out
 
